@@ -11,7 +11,7 @@
      restrictions a           Selector.LabelRestrictions();  satisfies R L = the label map L meets every restriction. *)
 From Coq Require Import List NArith Bool Permutation.
 From Verif.Common Require Import Labels.
-From Verif.C07 Require Import Model Spec MapLemmas AltProofs IdxProofs LiveProofs StepProofs RestrProofs Proofs.
+From Verif.C07 Require Import Model Spec MapLemmas AltProofs IdxProofs LiveProofs StepProofs RestrProofs CandProofs Proofs.
 Import ListNotations.
 Open Scope N_scope.
 
@@ -56,6 +56,32 @@ Theorem c07_parents_live :
     exists pa l, nlookup p (parents x) = Some pa /\ pa_items pa = Some l /\ memN i l = true.
 Proof. exact parents_live_perm. Qed.
 Print Assumptions c07_parents_live.
+
+(* LabelRestrictionIndex: after any history of AddSelector/DeleteSelector (ri_sels_of ops = the selectors now in the
+   index), a selector that evaluates to true on a label map is among the candidates AllPotentialMatches yields for
+   that map.  (Combines c07_restrictions_sound with the index's filing invariant.) *)
+Theorem c07_candidates_superset : forall ops s a L,
+  nlookup s (ri_sels_of ops) = Some a -> eval a L = true ->
+  In s (ri_candidates (fold_left ri_step ops ri_empty) L).
+Proof. exact ri_candidates_superset. Qed.
+Print Assumptions c07_candidates_superset.
+
+(* LabelNameValueIndex: after any history of Add/Remove, the scan strategy chosen for (label l, restriction r)
+   yields every stored item whose own labels satisfy r on l. *)
+Theorem c07_candidates_superset_items : forall ops l r i L,
+  nlookup i (nv_items (fold_left nv_step ops nv_empty)) = Some L ->
+  sat1 r (lookup l L) ->
+  In i (snd (nv_scan (fold_left nv_step ops nv_empty) l r)).
+Proof. exact nv_scan_superset. Qed.
+Print Assumptions c07_candidates_superset_items.
+
+(* Non-vacuity: selectors 1 (a == "x"), 2 (has(b)), 3 (a != "x": unoptimised), 4 (a == "x" && !has(a): impossible);
+   an item with a=x gets candidates 1 and 3 only. *)
+Example c07_candidates_example :
+  let ops := [RiAdd 1 (SEq [97] [120]); RiAdd 2 (SHas [98]); RiAdd 3 (SNe [97] [120]);
+              RiAdd 4 (SAnd [SEq [97] [120]; SNot (SHas [97])])] in
+  nsort (ri_candidates (fold_left ri_step ops ri_empty) [([97], [120])]) = [1; 3].
+Proof. vm_compute. reflexivity. Qed.
 
 (* The executable stand-in for Selector.Equal used in the correspondence run meets the hypothesis above. *)
 Theorem c07_ast_eqb_sound : forall a b, ast_eqb a b = true -> forall L, eval a L = eval b L.
